@@ -257,6 +257,20 @@ def absorb_k(out, prop, ob, rec):
         out.add_obligation(name, "K", "inconclusive", **summary)
         out.inconclusive_because(name, "unwinding assertion failed: the bound does not cover the code any more")
         return
+    # assertions of CBMC's allocator model are artifacts for safe code (memory safety is assumed, see kengine.KANI_FLAGS):
+    # they are never reported as violations of a property; on their own they make the obligation inconclusive
+    ARTIFACTS = ("rust_dealloc must be called", "free argument", "double free", "free called for new",
+                 "dereference failure: pointer invalid", "memcpy source region readable", "memcpy destination region writeable")
+    if not kengine.repo_has_unsafe():
+        arts = [f for f in rec.get("failed", []) if any(a in f["description"] for a in ARTIFACTS)]
+        if arts:
+            rec["failed"] = [f for f in rec["failed"] if f not in arts]
+            summary["allocator_model_artifacts"] = sorted({f["description"] for f in arts})
+            if not rec["failed"]:
+                out.add_obligation(name, "K", "inconclusive", **summary)
+                out.inconclusive_because(name, "only assertions of CBMC's allocator model failed (%s): an artifact of the model for safe "
+                                               "code, not a statement about the property" % summary["allocator_model_artifacts"][:2])
+                return
     relevant = []
     foreign = []
     for f in rec.get("failed", []):
